@@ -30,6 +30,10 @@
                (is_removed / is_readd rules)               |   corresponded, nothing proved about it)
     resolver.rs  StrongRemove::process + apply_operation   | [resolve_states]: per-operation state over
                                                            |   a fixed operation set with that filter
+    crdt/mod.rs  would_create_cycle (DFS over the nested   | [would_create_cycle] (stack + visited set,
+               groups of the state at the dependencies)    |   fuelled), [cycle_prone] (static: the
+                                                           |   history's "group added to group" edges
+                                                           |   contain a cycle, self-add included)
     resolver.rs  mutual removes (authority_graphs.rs)      | NOT modelled: [mutual_possible] recognises
                                                            |   (conservatively) histories that could
                                                            |   contain a mutual-remove cycle
@@ -46,8 +50,11 @@
     - `validate` rebuilds the state at the operation's dependencies with RS::process on a pruned
       graph; [step] uses the stored per-operation states instead (equal when the StrongRemove
       filter is empty, which is what [plain_history] recognises).  Nested-group cycle rejection
-      (would_create_cycle) is not modelled; the generators add groups only along a fixed rank
-      order so no cycle can arise.  MAX_NESTED_DEPTH = 1000 is the fuel of [minner].
+      ([would_create_cycle], evaluated on the state AT THE OPERATION'S DEPENDENCIES as `validate`
+      does after its prune-and-rebuild step) is part of the transcription [accept_r]/[run_r] only;
+      the proved model [step]/[run] has no such check and is used only for histories whose static
+      nesting graph is acyclic ([cycle_prone] = false), where the check can never fire.
+      MAX_NESTED_DEPTH = 1000 is the fuel of [minner].
     - usize counters are unbounded [N] (they count operations of one history). *)
 From Coq Require Import List NArith Bool.
 From PV Require Import Lib.AListC31.
@@ -323,6 +330,57 @@ Definition members_cs (cs : gstate) (g : N) : list (member * access) :=
 Definition members (y : replica) (g : N) : list (member * access) := members_cs (current y) g.
 Definition root_members (y : replica) (g : N) : list (member * access) := entries_of (current y) g.
 
+(** * Nested-group cycles (crdt/mod.rs would_create_cycle) *)
+
+(** Depth-first search with an explicit stack and a visited set, as in the Rust code: is [target]
+    reachable from the ids on [stack] along [succ]?  Every pop either skips a visited id or visits
+    a new one, so [fuel] > number of pushes suffices. *)
+Fixpoint reach_aux (fuel : nat) (succ : N -> list N) (target : N) (stack visited : list N) : bool :=
+  match fuel with
+  | O => false
+  | S f =>
+      match stack with
+      | [] => false
+      | c :: r =>
+          if memN c visited then reach_aux f succ target r visited
+          else if N.eqb c target then true
+          else reach_aux f succ target (succ c ++ r) (c :: visited)
+      end
+  end.
+
+(** Active group-kind members of group [g] in state [s] (`access_levels()` filtered on
+    `GroupMember::Group`). *)
+Definition subgroups_of (s : gstate) (g : N) : list N :=
+  map (fun e => snd (fst e)) (filter (fun e => fst (fst e)) (entries_of s g)).
+
+(** `would_create_cycle(operation)` evaluated on state [s]: only an Add of a group member can
+    close a cycle; true iff the operation's group is reachable from the added group (adding a
+    group to itself included). *)
+Definition would_create_cycle (s : gstate) (o : op) : bool :=
+  match act o with
+  | Add (true, h) _ =>
+      let n := List.length s in
+      reach_aux (S (S n * S n)) (subgroups_of s) (group o) [h] []
+  | _ => false
+  end.
+
+(** Static over-approximation: the edges "group h was (ever) added to / created inside group g"
+    of the whole history contain a cycle.  When this is false [would_create_cycle] is false for
+    every operation at every state that arises from the history. *)
+Definition nest_edges (ops : list op) : list (N * N) :=
+  flat_map (fun o =>
+              match act o with
+              | Add (true, h) _ => [(group o, h)]
+              | Create init => map (fun e => (group o, snd (fst e))) (filter (fun e => fst (fst e)) init)
+              | _ => []
+              end) ops.
+
+Definition cycle_prone (ops : list op) : bool :=
+  let E := nest_edges ops in
+  let n := List.length E in
+  let succ := fun g => map snd (filter (fun e => N.eqb (fst e) g) E) in
+  existsb (fun e => reach_aux (S (S n * S n)) succ (fst e) [snd e] []) E.
+
 (** * Causal structure of a history (graph.rs), and the StrongRemove filter (resolver.rs) *)
 
 Definition find_op (i : N) (ops : list op) : option op := find (fun o => N.eqb (oid o) i) ops.
@@ -432,15 +490,17 @@ Definition past_ops (ops : list op) (o : op) : list op :=
   filter (fun o' => memN (oid o') p && negb (N.eqb (oid o') (oid o))) ops.
 
 (** [GroupCrdt::process] with the StrongRemove filter (mutual removes excluded): [validate]
-    resolves the operation's causal past and applies the action to the state at its
-    dependencies; accepted operations join the set. *)
+    resolves the operation's causal past, rejects an Add that would close a nested-group cycle IN
+    THE STATE AT ITS DEPENDENCIES, and applies the action to that state; accepted operations join
+    the set. *)
 Definition accept_r (acc_ops : list op) (o : op) : bool :=
   negb (existsb (fun o' => N.eqb (oid o') (oid o)) acc_ops) &&
   negb (manager_group o) &&
   forallb (fun d => existsb (fun o' => N.eqb (oid o') d) acc_ops) (deps o) &&
   (let P := past_ops (acc_ops ++ [o]) o in
    match state_at (resolve_states P) (deps o) with
-   | Some s => match snd (apply_action s o false) with ROk => true | _ => false end
+   | Some s => negb (would_create_cycle s o) &&
+               match snd (apply_action s o false) with ROk => true | _ => false end
    | None => false
    end).
 
